@@ -48,7 +48,14 @@ type vfTransport struct {
 }
 
 func (t *vfTransport) Name() string                   { return t.name }
-func (t *vfTransport) AcceptProtocol() string         { return "" }
+// AcceptProtocol passes the gate "accept:<name>" (a no-op unless a check armed it): with
+// Config.Metrics.ExposeTransportAcceptProtocol the library calls it inside Node.addClient, right before hub.add.
+func (t *vfTransport) AcceptProtocol() string {
+	if t.w != nil && t.w.Gates != nil {
+		t.w.Gates.Pass("accept:" + t.name)
+	}
+	return ""
+}
 func (t *vfTransport) Protocol() ProtocolType         { return t.proto }
 func (t *vfTransport) ProtocolVersion() ProtocolVersion { return ProtocolVersion2 }
 func (t *vfTransport) Unidirectional() bool           { return t.uni }
